@@ -1,5 +1,77 @@
-"""abstract dict / OrderedDict keyed by call patterns (trusted contract, DESIGN A.4) - see lru jobs"""
+"""dict / OrderedDict holding user-object keys (trusted contract of dict/OrderedDict, DESIGN A.4).
+
+A Python dict of the interpreter is used as the store (insertion ordered); a key that is a user object (Opaque)
+is looked up by *symbolic equality*: the path forks on `key == stored_key` for each stored key in order.  The
+cache keys of lru_cache are abstract call patterns, so equality of the z3 terms is equality of patterns."""
+import z3
+from .values import *
 
 
-class ODict:
-    pass
+class ODict(dict):
+    """collections.OrderedDict: a dict with move_to_end / popitem(last=False)"""
+    ordered = True
+
+
+def find_key(ctx, d, key):
+    """the stored key equal to `key`, or None (forks on symbolic equality)"""
+    if not isinstance(key, Opaque):
+        return key if key in d else None
+    for k in list(d.keys()):
+        if isinstance(k, Opaque):
+            if ctx.branch(k.t == key.t):
+                return k
+    return None
+
+
+def od_getitem(interp, d, key):
+    k = find_key(interp.ctx, d, key)
+    if k is None:
+        raise PyRaise(ExcVal("KeyError", ident=("key", str(key))))
+    return dict.__getitem__(d, k)
+
+
+def od_setitem(interp, d, key, value):
+    k = find_key(interp.ctx, d, key)
+    dict.__setitem__(d, key if k is None else k, value)
+
+
+def od_contains(interp, d, key):
+    return find_key(interp.ctx, d, key) is not None
+
+
+def od_method(interp, d, name, args, kwargs):
+    ctx = interp.ctx
+    if name == "move_to_end":
+        k = find_key(ctx, d, args[0])
+        if k is None:
+            raise PyRaise(ExcVal("KeyError", ident=("key", str(args[0]))))
+        last = kwargs.get("last", args[1] if len(args) > 1 else True)
+        v = dict.pop(d, k)
+        if last:
+            dict.__setitem__(d, k, v)
+        else:
+            items = list(d.items())
+            dict.clear(d)
+            dict.__setitem__(d, k, v)
+            for kk, vv in items:
+                dict.__setitem__(d, kk, vv)
+        return None
+    if name == "popitem":
+        last = kwargs.get("last", args[0] if args else True)
+        if not d:
+            raise PyRaise(ExcVal("KeyError", ident="popitem(): dictionary is empty"))
+        k = list(d.keys())[-1 if last else 0]
+        return (k, dict.pop(d, k))
+    if name == "pop":
+        k = find_key(ctx, d, args[0])
+        if k is not None:
+            return dict.pop(d, k)
+        if len(args) > 1:
+            return args[1]
+        raise PyRaise(ExcVal("KeyError", ident=("key", str(args[0]))))
+    if name == "get":
+        k = find_key(ctx, d, args[0])
+        if k is not None:
+            return dict.__getitem__(d, k)
+        return args[1] if len(args) > 1 else None
+    return NotImplemented
